@@ -183,7 +183,9 @@ static void run_case(const Case& c, int fd) {
       build_table(p, {1}, {{0, 1, 2, 3}}, {1.5f, -2.5f});
       std::string b2 = digest(p), b2s = digest(p, false); bool th2;
       std::string v2 = call_cpp(c, p, th2);
-      bool same2 = th2 && v2 == v && digest(p, false) == b2s && digest(p) == b2;
+      // (a populated table is refused outright since the C20 repair "fit refuses a table which already contains data";
+      //  either refusal is fine, what matters is that the call throws and nothing changes)
+      bool same2 = th2 && digest(p, false) == b2s && digest(p) == b2;
       out << " pop=" << (same2 ? "unchanged" : "CHANGED:" + v2);
       if (!same2) p.ndim = 0;
     } else out << " pop=na";
